@@ -170,6 +170,23 @@ var unmetered = []struct{ name, src string }{
 	{"numeric-for", `local n = 0 for i = 1, N do n = n + 1 end return n`},
 	{"string-comparison", `local a, b = ("x"):rep(M), ("x"):rep(M) return a < b, a == b`},
 	{"table-constructor", `local t = {} for i = 1, N do t[i] = i end return #t`},
+	// metamethod chains that lead back to the value itself: followed in Go, no Lua code runs
+	{"call-cycle", `local t = setmetatable({}, {}) getmetatable(t).__call = t return pcall(t, N)`},
+	{"call-cycle-direct", `local t = setmetatable({}, {}) getmetatable(t).__call = t return t(N)`},
+	{"call-cycle-two", `local a, b = setmetatable({}, {}), setmetatable({}, {}) getmetatable(a).__call = b getmetatable(b).__call = a return pcall(a, N)`},
+	{"call-cycle-coroutine", `local t = setmetatable({}, {}) getmetatable(t).__call = t return coroutine.resume(coroutine.create(function() return t(N) end))`},
+	{"call-cycle-metamethod", `local t = setmetatable({}, {}) getmetatable(t).__call = t local u = setmetatable({}, {__index = t, __add = t, __close = t}) return pcall(function() return u.x end), pcall(function() return u + 1 end)`},
+	{"index-cycle", `local t = setmetatable({}, {}) getmetatable(t).__index = t return pcall(function() return t[N] end)`},
+	{"newindex-cycle", `local t = setmetatable({}, {}) getmetatable(t).__newindex = t return pcall(function() t[N] = 1 end)`},
+	{"index-chain", `local t = {} for i = 1, math.min(N, 100000) do t = setmetatable({}, {__index = t}) end return pcall(function() return t.x end)`},
+	{"load-endless-reader", `return load(function() return " " end)`},
+	{"load-endless-reader-token", `return load(function() return "x = 1 " end)`},
+	{"sort-inconsistent-order", `local t = {} for i = 1, math.min(M, 5000) do t[i] = i % 17 end return pcall(table.sort, t, function() return true end)`},
+	{"utf8-codepoint", `return select("#", utf8.codepoint(("x"):rep(M), 1, -1))`},
+	{"utf8-codes", `local n = 0 for _ in utf8.codes(("x"):rep(M)) do n = n + 1 end return n`},
+	{"date-long-format", `return #os.date(("%Y"):rep(M), 0)`},
+	{"tostring-name-cycle", `local t = setmetatable({}, {}) getmetatable(t).__tostring = function(x) return x end return pcall(tostring, t), pcall(string.format, "%s", t)`},
+	{"concat-big-number-strings", `local t = {} for i = 1, math.min(M, 100000) do t[i] = i end return #table.concat(t)`},
 }
 
 func TestC05(t *testing.T) {
